@@ -307,7 +307,14 @@ pub fn ops(rng: &mut Rng, prim_dot: bool, hist: &mut dyn FnMut(&str)) -> Vec<Op>
                             let p = point(rng);
                             let mut c1 = point(rng);
                             let mut c2 = point(rng);
-                            match rng.below(6) {
+                            match rng.below(7) {
+                                6 => {
+                                    // first control point = start of the subpath (not the current point unless they coincide)
+                                    if let Some(c) = start {
+                                        c1 = c;
+                                        hist("curve=c1-is-subpath-start");
+                                    }
+                                }
                                 0 | 1 => {
                                     if let Some(c) = cur {
                                         c1 = Point { x: flip_zero(rng, c.x), y: flip_zero(rng, c.y) };
